@@ -285,18 +285,28 @@ def execute(rec: Rec, lib, kind: str, settings: dict, *, grad: bool, nx: int = 3
     rec.pending = []
     res, exc = None, None
 
+    fired = []
+
     def on_alarm(signum, frame):
+        fired.append(1)
         raise Runaway
 
-    old = signal.signal(signal.SIGALRM, on_alarm)
-    signal.setitimer(signal.ITIMER_REAL, MAX_SECONDS, 2.0)   # re-armed: a firing inside a finalizer is swallowed
+    # the watchdog counts the CPU time of THIS process (ITIMER_PROF), not wall-clock time: on a loaded machine
+    # a healthy run may take many wall-clock seconds, and an exception injected into it by a wall-clock alarm
+    # (possibly swallowed by a C callback wrapper) would make the recorded trace meaningless
+    old = signal.signal(signal.SIGPROF, on_alarm)
+    signal.setitimer(signal.ITIMER_PROF, MAX_SECONDS, 2.0)   # re-armed: a firing inside a finalizer is swallowed
     try:
         res = lib.execute(problem, **settings)
     except BaseException as ex:  # noqa: BLE001
         exc = ex
     finally:
-        signal.setitimer(signal.ITIMER_REAL, 0)
-        signal.signal(signal.SIGALRM, old)
+        signal.setitimer(signal.ITIMER_PROF, 0)
+        signal.signal(signal.SIGPROF, old)
+    if fired and not isinstance(exc, Runaway):
+        # the alarm fired but the exception was swallowed somewhere: the run was disturbed by the harness,
+        # it is reported as a run that did not stop, never validated as if it were an undisturbed run
+        res, exc = None, Runaway()
     if kind == "doe":
         smp = getattr(lib, "samples", None)
         if smp is not None and len(np.shape(smp)) == 2:
